@@ -21,10 +21,10 @@ def run(ctx, R):
     R.not_decided = ['dictionary contents of metadata entries']
     declare(R, {**flow.RULES, **delivery.RULES}, RULES, FLOORS)
     core = [c for c in ctx.model.nodes if c.module.name == 'streamz.core']
-    flow.check_meta_pass(ctx, R, core)
-    flow.check_meta_flat(ctx, R, core)
-    delivery.check_paired_buffer(ctx, R, core)
-    delivery.check_fresh_read(ctx, R, core)
+    R.run(flow.check_meta_pass, ctx, R, core)
+    R.run(flow.check_meta_flat, ctx, R, core)
+    R.run(delivery.check_paired_buffer, ctx, R, core)
+    R.run(delivery.check_fresh_read, ctx, R, core)
 
 
 META['level'] += ' FRESH-READ: the metadata (and data) an emission is built from is read after the last store into its container on the path.'
